@@ -61,7 +61,7 @@ EXTRA_CALLS = {'sleep', 'time.sleep', 'pamqp_frame.marshal', 'pamqp_frame.unmars
                'Channel0', 'Poller', 'SelectPoller', 'threading.Thread'}
 SIGNIFICANT = {'open', 'close', 'on_frame', 'set_state', 'join', 'start', 'cancel', 'stop', 'send', 'recv', 'read',
                'shutdown', 'unwrap', 'check_for_errors', 'check_for_exceptions', 'append', 'pop', 'popleft', 'clear',
-               'remove', 'get_request', 'register_request', 'rpc_request', 'write_frame', 'write_frames',
+               'remove', 'insert', 'get_request', 'register_request', 'rpc_request', 'write_frame', 'write_frames',
                'write_to_socket', 'connect', 'wait', 'is_set', 'set', 'to_tuple', 'to_dict'}
 
 
